@@ -297,7 +297,11 @@ pub fn noise_exec(out: &mut Out, ex: &[Value]) {
     let made = catch(|| signal::noise(seed));
     let ok = made.is_some();
     inst[0] = made;
-    out.line(&json!({"ev":"reset","comp":"noise","cfg":{"seed": big_u(seed as u128)},
+    // `cross` / `at` are the stimulus' CLAIM (echoed, never used here): the counter seed + at takes the listed
+    // operations of the hash chain across 2^64; Trace_Osc verifies the claim on exact naturals
+    let cross = cfg.get("cross").cloned().unwrap_or_else(|| json!([]));
+    let at = cfg.get("at").and_then(|v| v.as_u64()).unwrap_or(0);
+    out.line(&json!({"ev":"reset","comp":"noise","cfg":{"seed": big_u(seed as u128), "cross": cross, "at": at},
         "r": if ok { r_unit() } else { r_panic() },"o":{"ok":ok}}));
     if !ok {
         return;
@@ -485,16 +489,42 @@ pub fn gen(rng: &mut Rng, tier: &str, execs: &mut Vec<Vec<Value>>) {
             json!({"ev":"agg","a":{"hz": f64f(hz), "hzi": -1, "n": long / 4}}),
         ]);
     }
-    // noise: the listed seeds and random ones; an original, a clone taken mid-stream, a restart
-    let mut seeds: Vec<u64> = vec![0, 1, 1 << 32, 1 << 63, u64::MAX - 1, u64::MAX, (1 << 32) - 1];
+    // noise: the listed seeds and random ones; an original, a clone taken mid-stream, a restart.
+    // Round 5: every u64 operation of the hash chain  x = (c << 13) ^ c;  ((x * ((x * x) * P1 + P2)) + P3) & 0x7fffffff
+    // (c = seed + index) must be driven across 2^64, where checked and wrapping arithmetic differ (debug build:
+    // panic).  `* x`, `* P1` cross for almost every counter, but `+ P2` (789_221) crosses only when the product
+    // before it lies in the top 789_221 values of u64 (probability 4e-14) and `+ P3` (1_376_312_589) in the top
+    // 1.4e9 (7e-11): these counters are FIXED here.  They were computed offline: `+ P2` by solving
+    // sq = -t / P1 (mod 2^64), a square root mod 2^64 (Hensel) and the inverse of c -> (c << 13) ^ c; `+ P3`
+    // and the all-ones output by exhaustive search from 0.  The label list (`cross`, for the counter seed + `at`)
+    // is a claim that Trace_Osc VERIFIES with Osc.tla's exact chain (NoiseCross) - a wrong constant is a rejection.
+    let labelled: [(u64, u64, &[&str]); 16] = [
+        (0, 0, &[]),
+        (1, 0, &[]),
+        (1 << 32, 0, &["sq", "mx"]),
+        (1 << 63, 0, &["shl", "sq", "mx"]),
+        (u64::MAX - 1, 0, &["shl"]),
+        (u64::MAX, 0, &["shl"]),
+        ((1 << 32) - 1, 0, &["sq", "m1", "mx"]),
+        (43_101_728_223, 0, &["a3", "sq", "m1", "mx"]),          // smallest counter whose `+ P3` crosses
+        (47_374_347_511 - 3, 3, &["a3"]),                        // reached by the run itself (4th frame)
+        (56_657_942_616 - 1, 1, &["a3"]),
+        (6_578_093_194_148_406_037, 0, &["a2", "shl", "sq", "m1"]), // `+ P2` crosses (t = 789_221: the very edge)
+        (8_688_407_970_579_004_009, 0, &["a2", "mx"]),
+        (11_865_318_259_704_290_539 - 2, 2, &["a2"]),
+        (5_582_927_809_630_876_629 - 1, 1, &["a2", "mx"]),
+        (230_204_178, 0, &["lo31ones"]),                         // all 31 output bits set: the smallest output
+        (2_377_687_826 - 2, 2, &["lo31ones"]),
+    ];
+    let mut seeds: Vec<(u64, u64, Vec<&str>)> = labelled.iter().map(|(s, at, l)| (*s, *at, l.to_vec())).collect();
     for _ in 0..(if thorough { 40 } else { 8 }) {
-        seeds.push(rng.next());
+        seeds.push((rng.next(), 0, vec![]));
     }
     let per = if thorough { 64 } else { 24 };
-    for s in seeds {
+    for (s, at, cross) in seeds {
         let nx = |i: u64| json!({"ev":"next","a":{"inst": i}});
-        let mut ex = vec![json!({"ev":"reset","comp":"noise","cfg":{"seed": big_u(s as u128)}})];
-        let split = 1 + rng.below(per / 2);
+        let mut ex = vec![json!({"ev":"reset","comp":"noise","cfg":{"seed": big_u(s as u128), "cross": cross, "at": at}})];
+        let split = (1 + rng.below(per / 2)).max(at + 1);
         for _ in 0..split {
             ex.push(nx(0));
         }
